@@ -1,6 +1,7 @@
 package main
 
 import (
+	"sync"
 	"encoding/json"
 	"flag"
 	"fmt"
@@ -368,30 +369,46 @@ func declaredLabels(src, fn string) []string {
 }
 
 func crossCheck(results []*HarnessResult) (int, int, []string) {
-	dis, n := 0, 0
-	var msgs []string
+	type job struct{ tr string }
+	var jobs []job
 	for _, hr := range results {
 		for _, tr := range hr.Transcripts {
-			n++
+			jobs = append(jobs, job{tr})
+		}
+	}
+	var mu sync.Mutex
+	dis := 0
+	var msgs []string
+	sem := make(chan struct{}, runtime.NumCPU())
+	var wg sync.WaitGroup
+	for _, j := range jobs {
+		wg.Add(1)
+		go func(tr string) {
+			defer wg.Done()
+			sem <- struct{}{}
+			defer func() { <-sem }()
 			ref := runTranscript("/usr/bin/z3", []string{"-smt2", tr})
 			for _, alt := range [][]string{{"z3-new", "-smt2", tr}, {"cvc5", "--incremental", "--lang=smt2", "--tlimit-per=60000", tr}} {
 				got := runTranscript(alt[0], alt[1:])
+				mu.Lock()
 				if len(got) != len(ref) {
 					dis++
 					msgs = append(msgs, fmt.Sprintf("%s: %s gave %d answers, z3 gave %d", filepath.Base(tr), alt[0], len(got), len(ref)))
-					continue
-				}
-				for i := range ref {
-					if ref[i] != got[i] && ref[i] != "unknown" && got[i] != "unknown" {
-						dis++
-						msgs = append(msgs, fmt.Sprintf("%s: query %d: z3=%s %s=%s", filepath.Base(tr), i, ref[i], alt[0], got[i]))
-						break
+				} else {
+					for i := range ref {
+						if ref[i] != got[i] && ref[i] != "unknown" && got[i] != "unknown" {
+							dis++
+							msgs = append(msgs, fmt.Sprintf("%s: query %d: z3=%s %s=%s", filepath.Base(tr), i, ref[i], alt[0], got[i]))
+							break
+						}
 					}
 				}
+				mu.Unlock()
 			}
-		}
+		}(j.tr)
 	}
-	return dis, n, msgs
+	wg.Wait()
+	return dis, len(jobs), msgs
 }
 
 func runTranscript(bin string, args []string) []string {
